@@ -38,6 +38,7 @@ func (c11) Cases(tier string, race bool) int {
 func (c11) Case(c *core.Ctx) {
 	r := c.R
 	keys := keyAlphabet(r, []string{"a", "b", "c", "k", "doc", "Kk", "a-B"})
+	namedMaps, hasNamed := r.Intn(10) == 0, false
 	var gen func(depth int) interface{}
 	gen = func(depth int) interface{} {
 		x := r.Intn(10)
@@ -57,6 +58,13 @@ func (c11) Case(c *core.Ctx) {
 			n := r.Intn(4)
 			for i := 0; i < n; i++ {
 				m[keys[r.Intn(len(keys))]] = gen(depth - 1)
+			}
+			if namedMaps && n > 0 && r.Intn(4) == 0 {
+				// a value of the NAMED type mxj.Map below the root: the path functions look for map[string]interface{}
+				// values only (ValueForPath reports a path through it as not existing), so for Set / Remove / Rename it is
+				// a terminal value like a scalar - a path through it cannot be applied and nothing may change
+				hasNamed = true
+				return mxj.Map(m)
 			}
 			return m
 		default:
@@ -85,6 +93,9 @@ func (c11) Case(c *core.Ctx) {
 	n := 1 + r.Intn(6)
 	for j := 0; j < n; j++ {
 		mm, ok := cur.(map[string]interface{})
+		if nm, isNamed := cur.(mxj.Map); isNamed {
+			mm, ok = nm, true // the path is aimed at real keys inside the named-type value
+		}
 		name := []string{"a", "b", "c", "k", "zz"}[r.Intn(5)]
 		if ok && len(mm) > 0 && r.Intn(6) != 0 {
 			ks := sortedKeys(mm)
@@ -94,9 +105,16 @@ func (c11) Case(c *core.Ctx) {
 			cur = nil
 		}
 		segs = append(segs, name)
-		if _, isMap := cur.(map[string]interface{}); !isMap && r.Intn(3) != 0 {
+		_, isMap := cur.(map[string]interface{})
+		if _, isNamed := cur.(mxj.Map); isNamed {
+			isMap = true
+		}
+		if !isMap && r.Intn(3) != 0 {
 			break
 		}
+	}
+	if hasNamed {
+		c.Count("shape:nested-named-map-value")
 	}
 	if len(segs) >= 2 && r.Intn(6) == 0 {
 		// bystanders whose key TEXT equals a dotted piece of the path: a top-level entry named like the whole parent path,
@@ -163,8 +181,8 @@ func (c11) Case(c *core.Ctx) {
 
 	// ---- Set ----
 	{
-		exp := jv.Copy(root).(jv.M)
-		act := jv.Copy(root).(jv.M)
+		exp := c11copy(root).(jv.M)
+		act := c11copy(root).(jv.M)
 		var v interface{} = fmt.Sprintf("NEW#%d", c.Index)
 		switch r.Intn(4) {
 		case 0:
@@ -204,8 +222,8 @@ func (c11) Case(c *core.Ctx) {
 	}
 	// ---- Remove ----
 	{
-		exp := jv.Copy(root).(jv.M)
-		act := jv.Copy(root).(jv.M)
+		exp := c11copy(root).(jv.M)
+		act := c11copy(root).(jv.M)
 		err := mxj.Map(act).Remove(path)
 		p, ex, pim, listOnWay, _ := nav(exp)
 		det := core.D{"op": "Remove", "map": before, "path": path, "after": jv.Show(act), "err": fmt.Sprint(err)}
@@ -233,8 +251,8 @@ func (c11) Case(c *core.Ctx) {
 	}
 	// ---- Rename ----
 	{
-		exp := jv.Copy(root).(jv.M)
-		act := jv.Copy(root).(jv.M)
+		exp := c11copy(root).(jv.M)
+		act := c11copy(root).(jv.M)
 		nn := []string{"a", "b", "c", "k", "fresh", "doc", last, "Kk", "kk", "a-B", "a_b"}[r.Intn(11)]
 		if &keys[0] == &hostileKeys[0] && r.Intn(2) == 0 {
 			// a name that differs from an existing sibling only by a blank at an edge, a digit string, a name with '/'
@@ -278,4 +296,29 @@ func (c11) Case(c *core.Ctx) {
 			}
 		}
 	}
+}
+
+// c11copy: deep copy that also copies values of the named type mxj.Map (jv.Copy shares them).
+func c11copy(v interface{}) interface{} {
+	switch t := v.(type) {
+	case jv.M:
+		o := make(jv.M, len(t))
+		for k, x := range t {
+			o[k] = c11copy(x)
+		}
+		return o
+	case mxj.Map:
+		o := make(mxj.Map, len(t))
+		for k, x := range t {
+			o[k] = c11copy(x)
+		}
+		return o
+	case jv.L:
+		o := make(jv.L, len(t))
+		for i, x := range t {
+			o[i] = c11copy(x)
+		}
+		return o
+	}
+	return v
 }
